@@ -363,15 +363,26 @@ type planner struct {
 	seed uint64
 	ci   int
 	sc   *scenario
+	att  map[string]int
 }
 
 // decide returns the injected error for a point of the main target. Decisions
 // depend only on (seed, case, message, attempt, stage, recipient), never on timing.
 func (pl *planner) decide(pt mx.Point) *errSpec {
 	id := origID(pt.MsgID)
-	key := fmt.Sprintf("%s|%d|%s|%s", id, pt.Attempt, pt.Stage, pt.Rcpt)
 	pl.mu.Lock()
 	defer pl.mu.Unlock()
+	// mx.ScriptTarget numbers attempts per msgMeta.ID, which below a queue
+	// carries the wall-clock second; count per message here (the attempts of
+	// one message never overlap).
+	if pl.att == nil {
+		pl.att = map[string]int{}
+	}
+	if pt.Stage == mx.StStart {
+		pl.att[id]++
+	}
+	pt.Attempt = pl.att[id]
+	key := fmt.Sprintf("%s|%d|%s|%s", id, pt.Attempt, pt.Stage, pt.Rcpt)
 	if e, ok := pl.sc.faults[key]; ok {
 		return e
 	}
@@ -442,17 +453,31 @@ func readHeader(raw []byte) (textproto.Header, error) {
 	return textproto.ReadHeader(bufio.NewReader(bytes.NewReader(append(append([]byte(nil), raw...), '\r', '\n'))))
 }
 
+// spoolBusy: a message is finished when all its spool files are gone (the
+// queue removes header, body and meta in that order); a message whose
+// dispatch panicked keeps its files next to an <id>.meta_broken marker. The
+// test is on "no file of a live message left", not on the .meta file alone,
+// because a directory listing taken during the rename of <id>.meta.new over
+// <id>.meta may show neither name.
 func spoolBusy(dir string) (bool, []string) {
 	es, err := os.ReadDir(dir)
 	if err != nil {
 		return false, nil
 	}
 	var names []string
+	broken := map[string]bool{}
 	for _, e := range es {
 		names = append(names, e.Name())
+		if strings.HasSuffix(e.Name(), ".meta_broken") {
+			broken[strings.TrimSuffix(e.Name(), ".meta_broken")] = true
+		}
 	}
 	for _, n := range names {
-		if strings.HasSuffix(n, ".meta") || strings.HasSuffix(n, ".meta.new") {
+		id := n
+		if i := strings.IndexByte(n, '.'); i >= 0 {
+			id = n[:i]
+		}
+		if !broken[id] {
 			return true, names
 		}
 	}
@@ -881,7 +906,8 @@ func expectedReports(sc *scenario, events []mx.Event) []*expReport {
 		pending := []rcptPlan{}
 		pending = append(pending, m.Rcpts...)
 		tries := map[string]int{}
-		for _, att := range byMsg[m.ID] {
+		for ai, att := range byMsg[m.ID] {
+			att.Attempt = ai + 1
 			if len(pending) == 0 {
 				break
 			}
